@@ -1,2 +1,228 @@
+//! C08: tokenisation and string literals.
+
+use crate::pool::Worker;
+use crate::Args;
+use rand::rngs::StdRng;
+use rand::seq::SliceRandom;
+use rand::{Rng, SeedableRng};
 use serde_json::{json, Value};
-pub fn tokens_json(_text: &str) -> Value { json!({}) }
+use std::io::Write;
+use std::time::Duration;
+
+/// Undo the escaping of Rust's `{:?}` for str
+fn undebug(s: &str) -> String {
+    let mut out = String::new();
+    let mut it = s.chars().peekable();
+    while let Some(c) = it.next() {
+        if c != '\\' {
+            out.push(c);
+            continue;
+        }
+        match it.next() {
+            Some('n') => out.push('\n'),
+            Some('r') => out.push('\r'),
+            Some('t') => out.push('\t'),
+            Some('0') => out.push('\0'),
+            Some('\\') => out.push('\\'),
+            Some('"') => out.push('"'),
+            Some('\'') => out.push('\''),
+            Some('u') => {
+                // \u{XXXX}
+                let mut hex = String::new();
+                if it.next() == Some('{') {
+                    for h in it.by_ref() {
+                        if h == '}' {
+                            break;
+                        }
+                        hex.push(h);
+                    }
+                }
+                if let Some(ch) = u32::from_str_radix(&hex, 16).ok().and_then(char::from_u32) {
+                    out.push(ch);
+                }
+            }
+            Some(o) => {
+                out.push('\\');
+                out.push(o);
+            }
+            None => out.push('\\'),
+        }
+    }
+    out
+}
+
+fn cps(s: &str) -> Vec<u32> {
+    s.chars().map(|c| c as u32).collect()
+}
+
+/// Worker op "tokens": the real lexer's token stream and the real parser's verdict on `text`
+pub fn tokens_json(text: &str) -> Value {
+    let r = std::panic::catch_unwind(|| nederlang::verif::tokens(text));
+    let (toks, fin) = match r {
+        Ok(x) => x,
+        Err(_) => return json!({"panic":true}),
+    };
+    // byte offset -> character index
+    let mut idx = vec![0usize; text.len() + 1];
+    let mut n = 0usize;
+    for (b, ch) in text.char_indices() {
+        for k in 0..ch.len_utf8() {
+            idx[b + k] = n;
+        }
+        n += 1;
+    }
+    idx[text.len()] = n;
+    let tj: Vec<Value> = toks
+        .iter()
+        .map(|t| {
+            let (kind, payload) = match t.debug.find('(') {
+                Some(p) => {
+                    let inner = &t.debug[p + 1..t.debug.len() - 1];
+                    let inner = inner.strip_prefix('"').and_then(|x| x.strip_suffix('"')).unwrap_or(inner);
+                    (t.debug[..p].to_string(), undebug(inner))
+                }
+                None => (t.debug.clone(), String::new()),
+            };
+            json!({"k":kind,"txt":cps(&payload),"e":idx[t.end.min(text.len())]})
+        })
+        .collect();
+    // what the parser makes of it: accepted or not, and the decoded string literals in order
+    let p = crate::run::parse_tree(text);
+    let mut strs: Vec<Value> = Vec::new();
+    if p["ok"] == true {
+        if let Some(nodes) = p["tree"]["nodes"].as_array() {
+            // string nodes in source order: the node table is children-first, left to right
+            for nd in nodes {
+                if nd["k"] == "Str" {
+                    strs.push(nd["cp"].clone());
+                }
+            }
+        }
+    }
+    json!({"toks":tj,"final":idx[fin.min(text.len())],"parse_ok":p["ok"],"parse_kind":p.get("kind").cloned().unwrap_or(json!("")),
+           "strs":strs})
+}
+
+fn char_rec(c: char) -> Value {
+    json!({"c":c as u32,"a":c.is_alphabetic(),"n":c.is_alphanumeric()})
+}
+
+const WORDS: &[&str] = &[
+    "als", "anders", "antwoord", "functie", "zolang", "stel", "ja", "nee", "stop", "volgende", "alsof", "stelling",
+    "janee", "a", "b_1", "_x", "élan", "naïef", "日本", "x9", "Ωmega", "ja_", "stopt", "nee2",
+];
+const OPS: &[&str] = &["==", "!=", "<=", ">=", "&&", "||", "=", "!", "<", ">", "/", ";", ",", ".", "(", ")", "{", "}",
+    "[", "]", "-", "+", "*", "^", "%"];
+const NUMS: &[&str] = &["0", "7", "42", "1.5", "3.", "007", "10.25", "1.2.3"];
+const STRS: &[&str] = &["\"\"", "\"a\"", "\"a b\"", "\"é😀\"", "\"x\\\"y\"", "\"p\\\\\"", "\"\\n\\t\"", "\"{}\"", "\"//geen commentaar\""];
+const SEPS: &[&str] = &["", " ", "\n", "\t", "\u{b}", "\u{c}", "\r", "\u{85}", "\u{200e}", "\u{200f}", "\u{2028}", "\u{2029}",
+    " // c\n", "//\n"];
+const ILLEGAL: &[&str] = &["№", "&", "|", "#", "@", "\"open", "٣", "~", "$"];
+
+pub fn lex_inputs(seed: u64, n: u64, enumerate: bool) -> Vec<String> {
+    let mut out: Vec<String> = Vec::new();
+    let vocab: Vec<&str> = WORDS.iter().chain(OPS.iter()).chain(NUMS.iter()).chain(STRS.iter()).cloned().collect();
+    if enumerate {
+        // every token alone, and every pair of tokens with every separator choice (including none)
+        for a in &vocab {
+            out.push(a.to_string());
+        }
+        for a in &vocab {
+            for b in &vocab {
+                for s in ["", " ", "\n", "//\n"] {
+                    out.push(format!("{a}{s}{b}"));
+                }
+            }
+        }
+        for a in ILLEGAL {
+            out.push(a.to_string());
+            out.push(format!("1 {a} print(\"x\")"));
+            out.push(format!("a{a}"));
+        }
+        // all string contents up to length 4 over a small alphabet, written as literals
+        let alpha: [char; 7] = ['a', '"', '\\', 'n', 't', '{', 'é'];
+        let mut contents: Vec<String> = vec![String::new()];
+        let mut layer: Vec<String> = vec![String::new()];
+        for _ in 0..4 {
+            let mut next = Vec::new();
+            for c in &layer {
+                for ch in alpha {
+                    let mut s = c.clone();
+                    s.push(ch);
+                    next.push(s);
+                }
+            }
+            contents.extend(next.iter().cloned());
+            layer = next;
+        }
+        for c in contents {
+            out.push(format!("\"{}\"", crate::ast::escape_str(&c)));
+        }
+        // raw literals (not produced by the encoder): every raw content up to length 3 over the same alphabet
+        let mut raws: Vec<String> = vec![String::new()];
+        let mut layer: Vec<String> = vec![String::new()];
+        for _ in 0..3 {
+            let mut next = Vec::new();
+            for c in &layer {
+                for ch in alpha {
+                    let mut s = c.clone();
+                    s.push(ch);
+                    next.push(s);
+                }
+            }
+            raws.extend(next.iter().cloned());
+            layer = next;
+        }
+        for r in raws {
+            out.push(format!("\"{r}\" 1"));
+        }
+    }
+    let mut rng = StdRng::seed_from_u64(seed);
+    for _ in 0..n {
+        let k = rng.gen_range(1..9);
+        let mut s = String::new();
+        for _ in 0..k {
+            let t = if rng.gen_bool(0.04) { ILLEGAL.choose(&mut rng).unwrap() } else { vocab.choose(&mut rng).unwrap() };
+            s.push_str(t);
+            s.push_str(SEPS.choose(&mut rng).unwrap());
+        }
+        out.push(s);
+    }
+    out
+}
+
+pub fn gen_lex(args: &Args) {
+    let seed = args.num("seed", 1);
+    let n = args.num("n", 500);
+    let out = args.get("out", "/dev/stdout");
+    let shard = args.num("shard", 0);
+    let shards = args.num("shards", 1);
+    let enumerate = args.num("enumerate", 1) > 0;
+    let first_id = args.num("first-id", 1);
+    let mut f = std::io::BufWriter::new(std::fs::File::create(&out).expect("create out"));
+    let mut w = Worker::spawn(Duration::from_secs(10));
+    let mut id = first_id;
+    for (k, text) in lex_inputs(seed, n, enumerate).iter().enumerate() {
+        if (k as u64) % shards != shard {
+            continue;
+        }
+        let r = w.request(&json!({"op":"tokens","text":text}));
+        let chars: Vec<Value> = text.chars().map(char_rec).collect();
+        let mut rec = json!({"id":id,"chars":chars,"text":text});
+        if r.get("toks").is_some() {
+            for (k, v) in r.as_object().unwrap() {
+                rec[k] = v.clone();
+            }
+            rec["crashed"] = json!(false);
+        } else {
+            rec["toks"] = json!([]);
+            rec["final"] = json!(0);
+            rec["parse_ok"] = json!(false);
+            rec["parse_kind"] = json!("Panic");
+            rec["strs"] = json!([]);
+            rec["crashed"] = json!(true);
+        }
+        writeln!(f, "{}", rec).unwrap();
+        id += 1;
+    }
+}
